@@ -21,6 +21,10 @@
 (*                         same arguments                                      *)
 (*   k = "distinct"        streams recorded for two different seeds / sequence *)
 (*                         ids (non-vacuity of "reproducible": they differ)    *)
+(*   k = "dhist"           one history of ScalarKernelsDistADT performed on    *)
+(*                         real distribution objects: per Draw the generator's *)
+(*                         raw outputs and the values of the (used / copied)   *)
+(*                         object and of a FRESH object fed a twin generator   *)
 (* Input: IOEnv.C07_OBS (ndjson); output IOEnv.OUT: one line per rejected      *)
 (* record [id, failed, cls] and a final summary line [summary, total, judged]. *)
 EXTENDS ScalarKernels, IOUtils, Json, SequencesExt, FiniteSets, TLC
@@ -37,6 +41,49 @@ WellZ(z) == z.n \in {0, 1} /\ IsLimbs(z.m)
 TMax(o) == SD(FALSE, Sub(Pow2L(o.bits - o.sgn), One), 0)
 TMin(o) == IF o.sgn = 1 THEN SD(TRUE, Pow2L(o.bits - 1), 0) ELSE SDZero
 InsideD(o) == D64IsFinite(o.r) /\ SDLessEq(D64Val(o.lo), D64Val(o.r)) /\ SDLessEq(D64Val(o.r), D64Val(o.hi))
+
+\* ---- histories of distribution objects (ScalarKernelsDistADT) --------------------------------------------
+\* values travel as halves (urd_f, biased, color) or quarters (urd_d); raw generator outputs as limbs
+PV(kind, p)      == IF kind = "urd_d" THEN D64Val(p) ELSE Val(H(p))
+PFinite(kind, p) == IF kind = "urd_d" THEN D64IsFinite(p) ELSE IsFinite(H(p))
+RelBits(kind)    == IF kind = "urd_d" THEN 49 ELSE MB - 3
+TinyOf(kind)     == IF kind = "urd_d" THEN D64Tiny ELSE Tiny
+TopOf(kind)      == IF kind = "urd_d" THEN Top64 ELSE Top32
+RangeStated(o)   == /\ PFinite(o.kind, o.lo) /\ PFinite(o.kind, o.hi) /\ SDLessEq(PV(o.kind, o.lo), PV(o.kind, o.hi))
+                    /\ (o.kind # "urd_d" => ~WidthOverflows(H(o.lo), H(o.hi)))      \* wider than FLT_MAX: judged (and known) on the stream records
+InRangeP(o, p)   == /\ PFinite(o.kind, p)
+                    /\ IF o.kind = "urd_d" THEN InRangeStepV(D64Val(p), D64Val(o.lo), D64Val(o.hi), 52, D64Tiny) ELSE InRangeStep(H(p), H(o.lo), H(o.hi))
+DrawFailures(o, st) ==
+  LET lv    == PV(o.kind, o.lo)
+      uv    == PV(o.kind, o.hi)
+      minL  == GenMinL(st.gen)
+      spanL == GenSpanL(st.gen)
+      n     == Len(st.v)
+      ValueOk(i) == \/ ~DrawStatedV(lv, uv, minL, spanL, st.raws[i], RelBits(o.kind), TopOf(o.kind))
+                    \/ /\ PFinite(o.kind, st.v[i])
+                       /\ DrawValueOkV(lv, uv, minL, spanL, st.raws[i], PV(o.kind, st.v[i]), RelBits(o.kind), TinyOf(o.kind))
+  IN \* binding guards (the orchestrator turns them into tooling errors): the generator types are the ones of the table,
+     \* the twin generators gave the same outputs, one output per value
+     (IF st.gen = "own" \/ (st.gmin = minL /\ st.gmax = Add(minL, spanL)) THEN {} ELSE {"guard:generator-range-table"})
+     \cup (IF st.raws = st.fraws /\ Len(st.raws) = n /\ Len(st.fv) = n /\ n = st.n /\ \A i \in 1..n : IsLimbs(st.raws[i]) THEN {} ELSE {"guard:generator-twins"})
+     \* no abstract state: the used / copied object returns what an object in its initial state returns
+     \cup (IF st.v = st.fv THEN {} ELSE {"stateless"})
+     \cup (IF ~RangeStated(o) \/ Len(st.raws) # n \/ \A i \in 1..n : ValueOk(i) THEN {} ELSE {"value-of-raw-output"})
+     \cup (IF ~RangeStated(o) \/ \A i \in 1..n : InRangeP(o, st.v[i]) THEN {} ELSE {"range"})
+\* makeRandomColor: a function of the index (whatever was evaluated before), components in [0, 1]
+ColorCalls(o) == UNION {{<<s, i>> : i \in 1..Len(o.steps[s].idx)} : s \in {t \in 1..Len(o.steps) : o.steps[t].a = "Colors"}}
+ColorFailures(o) ==
+  LET calls == ColorCalls(o)
+      Idx(c) == o.steps[c[1]].idx[c[2]]
+      Col(c) == o.steps[c[1]].v[c[2]]
+  IN (IF \A c \in calls, d \in calls : Idx(c) = Idx(d) => Col(c) = Col(d) THEN {} ELSE {"function-of-index"})
+     \cup (IF \A c \in calls : Len(Col(c)) = 3 /\ \A j \in 1..3 : InRangeStep(H(Col(c)[j]), FromHalves(<<0, 0>>), PlusOne) THEN {} ELSE {"range"})
+     \cup (IF \A s \in 1..Len(o.steps) : o.steps[s].a = "Colors" => Len(o.steps[s].idx) = Len(o.steps[s].v) /\ Len(o.steps[s].v) = o.steps[s].n THEN {} ELSE {"guard:calls"})
+DrawSteps(o) == {s \in 1..Len(o.steps) : o.steps[s].a = "Draw"}
+HistFailures(o) == (UNION {DrawFailures(o, o.steps[s]) : s \in DrawSteps(o)}) \cup (IF o.kind = "color" THEN ColorFailures(o) ELSE {})
+\* the first step a clause fails at names the class of the finding
+FirstBad(o) == LET bad == {s \in DrawSteps(o) : DrawFailures(o, o.steps[s]) # {}}
+               IN IF bad = {} THEN 0 ELSE CHOOSE s \in bad : \A t \in bad : s <= t
 
 \* is the record inside what the statement talks about?
 Judged(o) ==
@@ -87,6 +134,7 @@ Failures(o) ==
     [] o.k = "pack"     -> UNION {ChanFailures(c, o.tabs[c]) : c \in 1..4}
                            \cup (IF \A i \in 1..Len(o.vecs) : VecOk(o.tabs, o.vecs[i]) THEN {} ELSE {"word-is-sum-of-channel-bytes"})
     [] o.k = "dist"     -> DistFailures(H(o.lo), H(o.hi), o.a, o.b)
+    [] o.k = "dhist"    -> HistFailures(o)
     [] o.k = "distinct" -> IF o.s1 # o.s2 THEN {} ELSE {"identical-streams"}      \* vacuity guard of the orchestrator, not a property
     [] OTHER            -> {"unknown-record-kind"}
 
@@ -107,6 +155,11 @@ Cls(o) ==
     [] o.k = "clampd"  -> [class |-> PosOf(D64Val(o.x), D64Val(o.lo), D64Val(o.hi))]
     [] o.k = "lerpi"   -> [class |-> IF LerpIntNearEdge(Val(H(o.f)), ZZ(o.a), ZZ(o.b), TMin(o), TMax(o)) THEN "float-value-may-leave-the-type" ELSE "inside-the-type"]
     [] o.k = "dist"    -> [class |-> IF IsFinite(H(o.lo)) /\ IsFinite(H(o.hi)) /\ WidthOverflows(H(o.lo), H(o.hi)) THEN "upper-lower>FLT_MAX" ELSE "lower<=upper"]
+    [] o.k = "dhist"   -> LET s == FirstBad(o) IN IF s = 0 THEN [class |-> "-", gen |-> "-", step |-> 0]
+                                                   ELSE [class |-> IF RangeStated(o) /\ QuotientDenormalV(PV(o.kind, o.lo), PV(o.kind, o.hi), GenSpanL(o.steps[s].gen),
+                                                                                                            IF o.kind = "urd_d" THEN SDPow2(0 - 1022) ELSE SDPow2(1 - BIAS))
+                                                                    THEN "(upper-lower)/(max-min)<MIN_NORMAL" ELSE o.steps[s].cls,
+                                                         gen |-> o.steps[s].gen, step |-> s]
     [] OTHER           -> [class |-> "-"]
 
 RejIdx == {i \in DOMAIN Obs : Failures(Obs[i]) # {}}
